@@ -4,6 +4,7 @@ package c19
 // guard against size values that would make the sandbox attempt a giant allocation.
 
 import (
+	"strconv"
 	"bufio"
 	"bytes"
 	"context"
@@ -612,20 +613,47 @@ func runTargetOpt(target string, in []byte, lo uint64, o opt) (r res) {
 			return
 		}
 		r.Consumed = len(in)
-		st := &nopIndexStore{}
-		h := desync.NewHTTPIndexHandler(st, true, "")
-		r.Err, r.Panic, r.Stack, r.Alloc = measure(func() error {
-			req := httptest.NewRequest(http.MethodPut, "/c19.caibx", bytes.NewReader(in))
-			w := httptest.NewRecorder()
-			h.ServeHTTP(w, req)
-			if w.Code != http.StatusOK {
-				return fmt.Errorf("status %d", w.Code)
+		// the handler sees the length the client ANNOUNCES before it sees a single body byte: the same upload is
+		// made with the true length, without one (chunked, what desync's own client sends) and with lengths far
+		// above the body; no run may panic or allocate by the announcement
+		for _, announced := range []int64{int64(len(in)), -1, 1 << 27, 1<<28 + 1} {
+			st := &nopIndexStore{}
+			h := desync.NewHTTPIndexHandler(st, true, "")
+			var code int
+			err, pv, stack, alloc := measure(func() error {
+				req := httptest.NewRequest(http.MethodPut, "/c19.caibx", bytes.NewReader(in))
+				req.ContentLength = announced
+				if announced >= 0 {
+					req.Header.Set("Content-Length", strconv.FormatInt(announced, 10))
+				} else {
+					req.TransferEncoding = []string{"chunked"}
+				}
+				w := httptest.NewRecorder()
+				h.ServeHTTP(w, req)
+				code = w.Code
+				if w.Code != http.StatusOK {
+					return fmt.Errorf("status %d", w.Code)
+				}
+				if st.stored != 1 {
+					return fmt.Errorf("status 200 but StoreIndex called %d times", st.stored)
+				}
+				return nil
+			})
+			_ = code
+			if announced == int64(len(in)) {
+				r.Err, r.Panic, r.Stack, r.Alloc = err, pv, stack, alloc
+				continue
 			}
-			if st.stored != 1 {
-				return fmt.Errorf("status 200 but StoreIndex called %d times", st.stored)
+			if pv != nil && r.Panic == nil {
+				r.Panic, r.Stack, r.Elem = pv, stack, "announced-length"
 			}
-			return nil
-		})
+			if alloc > r.Alloc {
+				if alloc > allocBound(len(in), 0) && r.Alloc <= allocBound(len(in), 0) {
+					r.Elem = "announced-length"
+				}
+				r.Alloc = alloc
+			}
+		}
 
 	case "indexfile":
 		r.Unsafe, r.Elem = prescan(in, lo, 0)
